@@ -10,6 +10,7 @@ import NPModel.Refine.Observers
 import NPModel.Refine.Slices
 import NPModel.Refine.QueryRows
 import NPModel.Refine.SortNested
+import NPModel.Refine.FieldRows
 import NPModel.Refine.DropnaNested
 import NPModel.Refine.SamplesFrame
 namespace NP.C04
@@ -157,5 +158,31 @@ theorem dropna_layout_independent (isNull : α → Bool) (F₁ F₂ : NFrame α)
     (fun fs hfs f hf => ht ▸ hsub fs hfs f hf)
   refine ⟨col₁, col₂, hd₁, hd₂, ?_⟩
   rw [hrows₁, hrows₂, hcl, hr]
+
+/-- **Field edits cannot tell two layouts apart**: whenever `set_list_field` / `set_flat_field` /
+    `fill_field_lists` succeed on two layouts of the same rows (and the same declared fields), the
+    edited columns have the same rows and declare the same fields. -/
+theorem field_edits_layout_independent {c₁ c₂ c₁' c₂' : PCol α} {f ty : String} {keep : Bool}
+    (h₁ : c₁.Clean) (h₂ : c₂.Clean) (hr : c₁.rows = c₂.rows) (ht : c₁.ty = c₂.ty) :
+    (∀ (value : PList α), value.rows.length = value.len →
+      NArr.setListField c₁ f ty value keep = .ok c₁' → NArr.setListField c₂ f ty value keep = .ok c₂' →
+      c₁'.rows = c₂'.rows ∧ c₁'.ty = c₂'.ty) ∧
+    (∀ (xs : List α), NArr.setFlatField c₁ f ty (.array xs) keep = .ok c₁' →
+      NArr.setFlatField c₂ f ty (.array xs) keep = .ok c₂' → c₁'.rows = c₂'.rows ∧ c₁'.ty = c₂'.ty) ∧
+    (∀ (vs : List α), NArr.fillFieldLists c₁ f ty vs keep = .ok c₁' → NArr.fillFieldLists c₂ f ty vs keep = .ok c₂' →
+      c₁'.rows = c₂'.rows ∧ c₁'.ty = c₂'.ty) := by
+  refine ⟨?_, ?_, ?_⟩
+  · intro value hvl e₁ e₂
+    have ⟨r₁, t₁⟩ := setListField_rows e₁ hvl
+    have ⟨r₂, t₂⟩ := setListField_rows e₂ hvl
+    exact ⟨by rw [r₁, r₂, hr], by rw [t₁, t₂, ht]⟩
+  · intro xs e₁ e₂
+    have ⟨r₁, t₁, _⟩ := setFlatField_rows h₁ e₁
+    have ⟨r₂, t₂, _⟩ := setFlatField_rows h₂ e₂
+    exact ⟨by rw [r₁, r₂, hr], by rw [t₁, t₂, ht]⟩
+  · intro vs e₁ e₂
+    have ⟨r₁, t₁⟩ := fillFieldLists_rows h₁ e₁
+    have ⟨r₂, t₂⟩ := fillFieldLists_rows h₂ e₂
+    exact ⟨by rw [r₁, r₂, hr], by rw [t₁, t₂, ht]⟩
 
 end NP.C04
